@@ -1245,12 +1245,14 @@ func VerifC07RespondFail()   { c07Respond(c07Quick(), 1) }
 func VerifC07RespondDelete() { c07Respond(c07Quick(), 2) }
 
 // thorough tier: three circuits in the pre-state, equal payment hashes
-// allowed, write failures also at the first Put/Delete
+// allowed, write failures also at the first Put/Delete (the two-call
+// arbitration keeps two circuits: all nine call pairs, equal hashes, both
+// failure points)
 func VerifC07CommitDeep()  { c07Commit(c07Deep()) }
 func VerifC07OpenDeep()    { c07Open(c07Deep()) }
 func VerifC07TrimDeep()    { c07Trim(c07Deep()) }
 func VerifC07RestartDeep() { c07Restart(c07Deep()) }
-func VerifC07RespondDeep() { c07Respond(c07Deep(), -1) }
+func VerifC07RespondDeep() { c07Respond(c07Wide(), -1) }
 
 // thorough tier: batches of three
 func VerifC07CommitWide() { c07Commit(c07Wide()) }
